@@ -12,7 +12,7 @@ CHECK = {'pkg': '.',
          'cycling 2-5 reads each plus a reader that holds the client read lock, while the main goroutine runs 3-9 further steps. A step is a cluster '
          'mutation (topic added / replaced / deleted / given an error of each class: LeaderNotAvailable, UnknownTopicOrPartition, InvalidTopic, '
          'TopicAuthorizationFailed, other; partitions added / removed; leader moved, -1, or an id absent from the broker list; replica / isr / offline '
-         'lists; partition errors; broker added / removed / re-addressed / down / up; all seed brokers down; next requests to a broker dropped or left '
+         'lists (three distinct lists from the start, ISR a proper subset of the replicas); partition errors; broker added / removed / re-addressed / down / up; all seed brokers down; next requests to a broker dropped or left '
          'unanswered (ReadTimeout 100-150 ms only then); next responses delayed or carrying an error on every topic) or a client operation '
          '(RefreshMetadata() / RefreshMetadata(topics...), one read of Topics / Partitions / WritablePartitions / Leader / Replicas / InSyncReplicas / '
          'OfflineReplicas / Brokers, a sweep over everything the model holds). Oracle: reference view = fold of the metadata responses the simulator '
